@@ -1,10 +1,77 @@
 import MazeVerif.DriverOps.Util
+import MazeVerif.Model.Plot
 namespace MZ.Drv.C20
-open Lean MZ.Drv
+open Lean MZ.Drv MZ.Plot
 
-/-- driver ops of property C20 (`"op": "C20.<name>"`) -/
-def handle (op : String) (_j : Json) : R Json := do
+/-- pixel code on the wire: wall -1, one -2, conn -3, nan -4, `val id` = id ≥ 0 -/
+def pxCode : Px Nat → Int
+  | .wall => -1 | .one => -2 | .conn => -3 | .nan => -4 | .val v => (v : Int)
+
+def errName : Err → String
+  | .ValueError => "ValueError" | .AssertionError => "AssertionError" | .outOfModel => "outOfModel"
+
+def jExcept (r : Except Err String) : Json :=
+  match r with
+  | .ok s => obj [("ok", Json.str s)]
+  | .error e => obj [("err", Json.str (errName e))]
+
+def asQP (j : Json) : R (Bool × List Cell) := do
+  pure ((← getBool j "quiver"), (← getCells j "path"))
+
+def getMaze (j : Json) : R MazeObj := do
+  let rows ← getNat j "rows"
+  let cols ← getNat j "cols"
+  let E ← getEdges j "edges"
+  match ← getStr j "kind" with
+  | "plain" => pure (.plain rows cols E)
+  | "targeted" => pure (.targeted rows cols E (← getCell j "start") (← getCell j "end"))
+  | "solved" => pure (.solved rows cols E (← getCells j "solution"))
+  | k => throw s!"unknown maze kind {k}"
+
+/-- ops:
+  * `C20.img` {rows, cols, edges, ul, node_ids: null | [[id…]…]} → {h, w, img: [[code…]…]} (`_lattice_maze_to_img`)
+  * `C20.paths` {ul, true_path: null | {quiver, path}, predicted: [{quiver, path}…]} → {lines, quivers} in doubled integers
+  * `C20.ascii` {maze: {kind, rows, cols, edges, start?, end?, solution?}, sp: [[r,c]…], added: null | [[r,c]…], se, ss}
+      → {plot: {ok|err}, own: {ok|err}, solved: {ok|err}} (`to_ascii`, the maze's own `as_ascii`, `as_ascii` of the
+      `SolvedMaze` built from `true_path`) -/
+def handle (op : String) (j : Json) : R Json := do
   match op with
+  | "C20.img" =>
+    let rows ← getNat j "rows"
+    let cols ← getNat j "cols"
+    let E ← getEdges j "edges"
+    let ul ← getNat j "ul"
+    let nv : Option (Nat → Nat → Nat) ← match optFld j "node_ids" with
+      | none => pure none
+      | some v => do
+        let tbl ← (← v.getArr?).toList.mapM asNatList
+        if tbl.length ≠ rows ∨ tbl.any (fun l => l.length ≠ cols) then throw "node_ids: shape mismatch"
+        let arr := (tbl.map List.toArray).toArray
+        pure (some fun r c => (arr.getD r #[]).getD c 0)
+    let (h, w, img) := latticeMazeToImg rows cols E ul nv
+    let rowsJ := (List.range h).map fun y => jInts ((List.range w).map fun x => pxCode (img y x))
+    pure <| obj [("h", jNat h), ("w", jNat w), ("img", Json.arr rowsJ.toArray)]
+  | "C20.paths" =>
+    let ul ← getNat j "ul"
+    let tp ← match optFld j "true_path" with
+      | none => pure none
+      | some v => do pure (some (← asQP v))
+    let preds ← (← getArr j "predicted").mapM asQP
+    let arts := plotArtists ul tp preds
+    let jPt (p : Int × Int) : Json := Json.arr #[jInt p.1, jInt p.2]
+    pure <| obj [("lines", jList (fun l => jList jPt l) (linesOf arts)),
+                 ("quivers", jList (fun q => Json.arr #[jInts q.1, jInts q.2.1, jInts q.2.2.1, jInts q.2.2.2]) (quiversOf arts))]
+  | "C20.ascii" =>
+    let m ← getMaze (← fld j "maze")
+    let sp ← getCells j "sp"
+    let se ← getBool j "se"
+    let ss ← getBool j "ss"
+    let p0 := newPlot m sp
+    let p ← match optFld j "added" with
+      | none => pure p0
+      | some v => do pure (addTruePath p0 (← (← v.getArr?).toList.mapM asCell))
+    let solved : Except Err String := do asAscii (← solvedMaze p) se ss
+    pure <| obj [("plot", jExcept (toAscii p se ss)), ("own", jExcept (asAscii m se ss)), ("solved", jExcept solved)]
   | _ => throw s!"unknown op {op}"
 
 end MZ.Drv.C20
